@@ -718,21 +718,42 @@ func c17Round3(c *Ctx) {
 		// saturation tests of the classic end record
 		del := map[edge]bool{}
 		nSat := 0
+		var isSat func(v ssa.Value, d int) bool
+		isSat = func(v ssa.Value, d int) bool {
+			if d > 6 {
+				return false
+			}
+			switch x := v.(type) {
+			case *ssa.BinOp:
+				if x.Op != token.EQL {
+					return false
+				}
+				tn, f, _ := p.fieldLoad(stripConv(x.X))
+				k, isK := constInt(x.Y)
+				if !strings.HasSuffix(tn, "zipEndRecord") || !isK {
+					return false
+				}
+				return (f == "TotalCDCount" && k == 0xffff) || (f == "CDCount" && k == 0xffff) || (f == "CDSize" && k == 0xffffffff) || (f == "CDOffset" && k == 0xffffffff)
+			case *ssa.Phi:
+				// `a || b || c` kept in a variable: every incoming value is a saturation test or a constant
+				for _, e := range x.Edges {
+					if _, isB := boolConst(e); isB {
+						continue
+					}
+					if !isSat(e, d+1) {
+						return false
+					}
+				}
+				return len(x.Edges) > 0
+			}
+			return false
+		}
 		for _, b := range fn.Blocks {
 			ifi, ok := b.Instrs[len(b.Instrs)-1].(*ssa.If)
 			if !ok {
 				continue
 			}
-			bo, ok := ifi.Cond.(*ssa.BinOp)
-			if !ok || bo.Op != token.EQL {
-				continue
-			}
-			tn, f, _ := p.fieldLoad(stripConv(bo.X))
-			k, isK := constInt(bo.Y)
-			if !strings.HasSuffix(tn, "zipEndRecord") || !isK {
-				continue
-			}
-			if (f == "TotalCDCount" && k == 0xffff) || (f == "CDCount" && k == 0xffff) || (f == "CDSize" && k == 0xffffffff) || (f == "CDOffset" && k == 0xffffffff) {
+			if isSat(ifi.Cond, 0) {
 				nSat++
 				del[edge{b.Index, 0}] = true
 			}
